@@ -77,18 +77,17 @@ const (
 
 // next gets the next rune from the input.
 func (l *lexer) next() (r rune) {
-	if l.pos >= len(l.input) {
+	// refill until there is a whole rune to decode or the input has ended;
+	// an empty chunk just asks for the next one
+	for l.pos >= len(l.input) || !utf8.FullRuneInString(l.input[l.pos:]) {
 		s, ok := <-l.inputs
 		if !ok {
-			if l.pos == l.start {
-				l.width = 0
-				return eof
-			}
-			// continue with leftover + s
+			break
 		}
-		l.input = l.input[l.start:l.pos] + s
+		rest := l.input[l.start:]
 		l.posShift += l.start
-		l.lpUpd(s, l.posShift+l.pos-l.start)
+		l.lpUpd(s, l.posShift+len(rest))
+		l.input = rest + s
 		l.pos -= l.start
 		l.start = 0
 	}
